@@ -98,6 +98,10 @@ func paramShapes(quick bool) []shape {
 		{"In{unexported,ignore=false}", []reflect.Type{st(emb(tyIn, `ignore-unexported:"false"`), sf("F", tyA, ""), sf("x", tyA, ""))}, false},
 		{"In{unexported,ignore=junk}", []reflect.Type{st(emb(tyIn, `ignore-unexported:"junk"`), sf("F", tyA, ""), sf("x", tyA, ""))}, false},
 		{"In{only-unexported,ignore=true}", []reflect.Type{st(emb(tyIn, `ignore-unexported:"true"`), sf("x", tyA, ""))}, false},
+		{"In{ignore=true;x;F}", []reflect.Type{st(emb(tyIn, `ignore-unexported:"true"`), sf("x", tyA, ""), sf("F", tyA, ""))}, false},
+		{"In{x;ignore=true;F}", []reflect.Type{st(sf("x", tyA, ""), emb(tyIn, `ignore-unexported:"true"`), sf("F", tyA, ""))}, false},
+		{"In{F;x;G,ignore=true}", []reflect.Type{st(emb(tyIn, `ignore-unexported:"true"`), sf("F", tyA, ""), sf("x", tyB, ""), sf("G", tyB, `optional:"true"`))}, false},
+		{"In{G In{ignore=true;x;F}}", []reflect.Type{st(emb(tyIn, ""), sf("G", st(emb(tyIn, `ignore-unexported:"true"`), sf("x", tyA, ""), sf("F", tyA, "")), ""))}, false},
 	}
 	for _, tag := range fieldTags {
 		s = append(s, shape{"In{F A `" + tag + "`}", []reflect.Type{st(emb(tyIn, ""), sf("F", tyA, tag))}, false})
